@@ -44,3 +44,27 @@
   (forall ((j Int)) (! (=> (and (<= (Slice.off s) j) (< j (+ (Slice.off s) n)))
         (= (MapC<Any~Unit>.card (select F.MapC<Any~Unit> (select (select F.Arr<Int> (Slice.ptr s)) j))) 0))
      :pattern ((select (select F.Arr<Int> (Slice.ptr s)) j)))))
+
+; ---- slices of values ([]cty.Value in heap Arr<cty.Value>), absolute positions ------------------
+(define-fun vals_arr ((s Slice)) (Array Int cty.Value) (select F.Arr<cty.Value> (Slice.ptr s)))
+(define-fun vals_wf_marks ((s Slice) (n Int)) Bool
+  (forall ((j Int)) (! (=> (and (<= (Slice.off s) j) (< j (+ (Slice.off s) n))) (wf_marks (select (vals_arr s) j)))
+     :pattern ((select (vals_arr s) j)))))
+(define-fun vals_unmarked ((s Slice) (n Int)) Bool
+  (forall ((j Int)) (! (=> (and (<= (Slice.off s) j) (< j (+ (Slice.off s) n))) (not (is_marked (select (vals_arr s) j))))
+     :pattern ((select (vals_arr s) j)))))
+(define-fun in_any_valmarks ((s Slice) (n Int) (k Any)) Bool
+  (exists ((j Int)) (! (and (<= (Slice.off s) j) (< j (+ (Slice.off s) n)) (select (marks_of (select (vals_arr s) j)) k))
+     :pattern ((select (vals_arr s) j)))))
+
+; ---- refinement builder (pre-state through the frozen heap) -------------------------------------
+(define-fun b_wip ((b Int)) Any (cty.RefinementBuilder.wip (select F.cty.RefinementBuilder b)))
+(define-fun b_orig ((b Int)) cty.Value (cty.RefinementBuilder.orig (select F.cty.RefinementBuilder b)))
+; address of the refinement object of a given kind, or -1 ("no object") when the builder holds another kind
+(define-fun wip_num ((w Any)) Int (ite ((_ is box<*cty.refinementNumber>) w) (unbox<*cty.refinementNumber> w) (- 1)))
+(define-fun wip_str ((w Any)) Int (ite ((_ is box<*cty.refinementString>) w) (unbox<*cty.refinementString> w) (- 1)))
+(define-fun wip_coll ((w Any)) Int (ite ((_ is box<*cty.refinementCollection>) w) (unbox<*cty.refinementCollection> w) (- 1)))
+(define-fun wip_nul ((w Any)) Int (ite ((_ is box<*cty.refinementNullable>) w) (unbox<*cty.refinementNullable> w) (- 1)))
+(define-fun rfn_kind ((w Any)) Int
+  (ite ((_ is box<*cty.refinementNumber>) w) 1 (ite ((_ is box<*cty.refinementString>) w) 2
+  (ite ((_ is box<*cty.refinementCollection>) w) 3 (ite ((_ is box<*cty.refinementNullable>) w) 4 0)))))
